@@ -23,4 +23,12 @@ flock 9
 if ! cmp -s "$H/go.mod.new" "$H/go.mod" 2>/dev/null; then mv "$H/go.mod.new" "$H/go.mod"; else rm "$H/go.mod.new"; fi
 cp "$REPO/go.sum" "$H/go.sum"
 cd "$H"
-go build -tags verif -o "$VERIF/build/exoharness" . 
+# skip the (10 s) go staleness walk when no Go source / module file changed since the last successful build
+STAMP="$VERIF/build/.harness.stamp"
+NEW="$( { find "$REPO" -path "$REPO/.git" -prune -o \( -name '*.go' -o -name 'go.mod' -o -name 'go.sum' -o -name '*.json' -o -name '*.sol' \) -printf '%p %s %T@\n' 2>/dev/null | LC_ALL=C sort; find "$H" -maxdepth 1 -name '*.go' -printf '%p %s %T@\n' | LC_ALL=C sort; echo "$REPO"; } | sha1sum | cut -d' ' -f1)"
+if [ -x "$VERIF/build/exoharness" ] && [ -f "$STAMP" ] && [ "$(cat "$STAMP")" = "$NEW" ]; then
+  exit 0
+fi
+rm -f "$STAMP"
+go build -tags verif -o "$VERIF/build/exoharness" .
+echo "$NEW" > "$STAMP" 
